@@ -242,7 +242,11 @@ class Shapes:
             return self.subscript(self.ev(node.value), node.slice, node)
         if isinstance(node, ast.IfExp):
             a, b = self.ev(node.body), self.ev(node.orelse)
-            return a if a == b else TOP
+            if a is TOP:
+                return b
+            if b is TOP or isinstance(b, Int) or b == ():
+                return a          # `x if cond else 0/None/unknown`: the informative branch
+            return a if _same(a, b) else TOP
         if isinstance(node, ast.Call):
             return self.call(node)
         if isinstance(node, ast.Tuple):
